@@ -5,7 +5,9 @@ use alloc::vec::Vec;
 use hashbrown::HashMap;
 use p3_air::symbolic::AirLayout;
 use p3_air::{Air, SymbolicExpressionExt};
-use p3_batch_stark::symbolic::{get_log_num_quotient_chunks, get_symbolic_constraints};
+use p3_batch_stark::symbolic::{
+    get_constraint_layout, get_log_num_quotient_chunks, get_symbolic_constraints,
+};
 use p3_circuit::CircuitBuilder;
 use p3_circuit::symbolic::{ColumnsTargets, SymbolicCompiler};
 use p3_field::{Algebra, ExtensionField, Field};
@@ -158,6 +160,11 @@ where
         };
         let (base_symbolic_constraints, extension_symbolic_constraints) =
             get_symbolic_constraints(self, layout, contexts, lookup_gadget);
+        // Global emission order of the constraints: the native folder accumulates
+        // `acc = acc * alpha + c` in the order the AIR asserts them, base and extension
+        // constraints interleaved.
+        let constraint_layout =
+            get_constraint_layout::<F, EF, _, _>(self, layout, contexts, lookup_gadget);
 
         // Fold all constraints: result = c₀ + α·c₁ + α²·c₂ + ...
         //
@@ -165,19 +172,23 @@ where
         // destroys Arc-based sub-expression sharing and causes exponential blowup.
         // Instead, we lift F → EF constants directly.
         //
-        // Additionally, the cache is shared across all constraint calls to reuse circuit
+        // Additionally, the caches are shared across all constraint calls to reuse circuit
         // operations for sub-expressions shared between different constraints.
         let compiler = SymbolicCompiler::new(sels.row_selectors, &columns);
         let mut acc = builder.define_const(EF::ZERO);
         let mut base_cache = HashMap::new();
-        for s_c in &base_symbolic_constraints {
-            let constraints = compiler.compile_base(s_c, builder, &mut base_cache);
-            acc = builder.mul_add(acc, *alpha, constraints);
-        }
-
         let mut ext_cache = HashMap::new();
-        for s_c in &extension_symbolic_constraints {
-            let constraints = compiler.compile_ext(s_c, builder, &mut base_cache, &mut ext_cache);
+        let (mut next_base, mut next_ext) = (0, 0);
+        for idx in 0..constraint_layout.total_constraints() {
+            let constraints = if constraint_layout.base_indices.get(next_base) == Some(&idx) {
+                let s_c = &base_symbolic_constraints[next_base];
+                next_base += 1;
+                compiler.compile_base(s_c, builder, &mut base_cache)
+            } else {
+                let s_c = &extension_symbolic_constraints[next_ext];
+                next_ext += 1;
+                compiler.compile_ext(s_c, builder, &mut base_cache, &mut ext_cache)
+            };
             acc = builder.mul_add(acc, *alpha, constraints);
         }
 
